@@ -790,6 +790,80 @@ def func_eval(outcomes, val):
         return ("ambiguous", 0)
 
 
+def superseded_derivations(chk: Check, ctx: FuncCtx, attr: str):
+    """Stores `self.y = f(self.<attr>)` whose `self.<attr>` is not the value the object ends up with.
+
+    `self.<attr>` is (re)assigned inside this method (e.g. a footer copy replaces the primary header).  A value derived from
+    it and kept on the object must be derived from the FINAL value: the definitions of the pseudo-variable `self.<attr>` that
+    reach the store must be exactly those that reach the method's exit.  Reads inside conditions are not stores and are free
+    to look at the earlier value (that is how the replacement is decided).  -> [(stmt, stored name)]"""
+    cfg = ctx.cfg
+    if not cfg.params:
+        return []
+    selfname = cfg.params[0]
+    pseudo = f"{selfname}.{attr}"
+    out = []
+    for n in sorted((x for x in _own_nodes(ctx.func) if isinstance(x, (ast.Assign, ast.AugAssign, ast.AnnAssign))), key=lambda x: x.lineno):
+        targets = n.targets if isinstance(n, ast.Assign) else [n.target]
+        stored = [t for t in targets if isinstance(t, ast.Attribute) and isinstance(t.value, ast.Name) and t.value.id == selfname and t.attr != attr]
+        if not stored or n.value is None:
+            continue
+        reads = [x for x in ast.walk(n.value) if isinstance(x, ast.Attribute) and x.attr == attr and isinstance(x.value, ast.Name) and x.value.id == selfname]
+        if not reads:
+            continue
+        node = cfg.node_for(n)
+        # forward reachability within one pass: back edges are not followed (a re-assignment in the next round of an
+        # enclosing loop is followed by a re-derivation in that round)
+        back = {(p_, cfg.node_of[lp]) for lp in cfg.loop_nodes for p_ in cfg.back_edge_sources(lp)}
+        after, stack = set(), [node]
+        while stack:
+            cur = stack.pop()
+            if cur in after:
+                continue
+            after.add(cur)
+            for s_, _lab in cur.succ:
+                if (cur, s_) not in back:
+                    stack.append(s_)
+        later = [d for nn in after if nn is not node for d in cfg.defs_at.get(nn, ()) if d.name == pseudo and d.kind != "attr-entry"]
+        if later:
+            out.append((n, stored[0].attr))
+    return out
+
+
+def check_superseded(chk: Check, rels, kind="K-LIVE"):
+    """For every method of the classes in `rels` that assigns some `self.<attr>` more than once: no value kept on the
+    object is derived from a `self.<attr>` that the same pass replaces afterwards (superseded_derivations)."""
+    from .calls import iter_functions
+
+    n = 0
+    for mi, ci, fn in iter_functions(chk.prog):
+        if ci is None or mi.mod.relpath not in rels or not fn.args.args:
+            continue
+        ctx = chk.R.ctx_of(fn)
+        sn = fn.args.args[0].arg
+        cnt = {}
+        for x in _own_nodes(fn):
+            if isinstance(x, ast.Assign):
+                for t in x.targets:
+                    if isinstance(t, ast.Attribute) and isinstance(t.value, ast.Name) and t.value.id == sn:
+                        cnt[t.attr] = cnt.get(t.attr, 0) + 1
+        for a, c in sorted(cnt.items()):
+            if c < 2:
+                continue
+            n += 1
+            bad = superseded_derivations(chk, ctx, a)
+            q = ctx.qual.split("::")[-1]
+            if bad:
+                st, name = bad[0]
+                chk.violated(kind, f"derived-from-final:{q}.{a}", st,
+                             f"self.{name} is computed from self.{a}, which is replaced later in the same pass: the kept value belongs to the "
+                             f"superseded {a} (e.g. the primary header instead of the footer copy) while everything else uses the final one")
+            else:
+                chk.holds(kind, f"derived-from-final:{q}.{a}", fn, f"self.{a} is assigned {c} times; nothing kept on the object is derived from a superseded value",
+                          nontrivial=False)
+    return n
+
+
 def dead_reads(chk: Check, ctx: FuncCtx):
     """Handle reads whose result is overwritten before any use on every path (K-LIVE).
     -> [(stmt, description)] for self-attribute targets and locals."""
